@@ -15,7 +15,6 @@ use conjure_http::PathParams;
 use http::{HeaderMap, HeaderName, HeaderValue, Method, Request};
 use labrt::{block_on, route, ChunkStream, Chunks};
 use serde_json::json;
-use std::error::Error as _;
 use std::sync::Arc;
 use vcore::json::J;
 use vcore::rng::fnv;
